@@ -43,10 +43,24 @@ def gen(rng):
         if rng.random() < 0.4:
             al = rng.choice(b"abcfhvx")
             if al in aliases and rng.random() < 0.8: al = 0
+        if rng.random() < 0.03: al = rng.choice(b"abcfhvx"); nm = b"-" + bytes([al])          # long name equal to the option's own short index name
         names.append(nm); aliases.add(al)
         ops.append("o:%s:%d" % (hexs(nm), al))
-    for _ in range(rng.choice([0, 0, 1, 2])):
-        ops.append("a:%s:%d" % (hexs(name(rng) + b"!"), rng.randint(0, n)))
+    given = []
+    for _ in range(rng.choice([0, 0, 1, 2, 3])):
+        # an extra alias name: fresh, or TAKEN — the long name of the option itself or of another one, the "-x" index name of a one-character alias
+        # (its own or another option's), or an alias name given before (to the same or to another option)
+        k = rng.random()
+        used = [a for a in aliases if a]
+        if k < 0.4 or not names: an = name(rng) + b"!"
+        elif k < 0.62: an = rng.choice(names)
+        elif k < 0.8 and used: an = b"-" + bytes([rng.choice(used)])
+        elif given: an = rng.choice(given)
+        else: an = name(rng) + b"!"
+        tgt = rng.randint(0, n)
+        if names and rng.random() < 0.35 and an in names: tgt = names.index(an)          # the name's own option
+        given.append(an)
+        ops.append("a:%s:%d" % (hexs(an), tgt))
     for _ in range(rng.randint(3, 12)):
         k = rng.random()
         base = rng.choice(names) if names else b"f"
@@ -78,7 +92,7 @@ def reference(ops):
         if f[0] == "o":
             nm, al = unh(f[1]), int(f[2])
             if al and (b"-" + bytes([al])) in index: out.append("DUP"); break
-            if nm and nm in index: out.append("DUP"); break
+            if nm and (nm in index or (al and nm == b"-" + bytes([al]))): out.append("DUP"); break     # taken — also by the option's own short index name
             if al: index[b"-" + bytes([al])] = nopt
             if nm: index[nm] = nopt
             nopt += 1; out.append("ok")
